@@ -3,7 +3,9 @@
                    add_proposal / add_treasury_donation) and TransactionBuilder.build(change_address=..., merge_change=...);
                    returns the CBOR of the RETURNED BODY.  While build runs, thin recording wrappers (which call the
                    real methods) note what _estimate_fee, _pack_tokens_for_change and the UTxO selectors returned /
-                   were asked, so that the Coq model can be compared step by step;
+                   were asked (request, the pool of UTxOs offered, the answer), so that the Coq model can be compared step
+                   by step; the module-level `random` (drawn from by RandomImproveMultiAsset) is seeded with case['rseed']
+                   right before build(), case['excluded'] = indices of excluded_inputs;
    * kind 'calc' : the private methods _get_total_key_deposit, _get_total_proposal_deposit and _calc_change on a prepared
                    builder (every listed UTxO is an input);
    * kind 'pack' : _pack_tokens_for_change(address, Value, max_val_size);
@@ -14,6 +16,7 @@
 """
 from _pre import *
 from copy import deepcopy
+import random as _random
 from fractions import Fraction
 import pycardano as pc
 from pycardano import (Address, Asset, AssetName, MultiAsset, ScriptHash, TransactionBuilder, TransactionInput,
@@ -295,6 +298,9 @@ def run_e2e(case):
         out['kd_err'] = err_kind(e)
     log = {'fees': [], 'packs': [], 'sel': []}
     instrument(b, log)
+    # the default first selector (RandomImproveMultiAsset) draws from the module-level `random`: its state is part
+    # of the scenario (field rseed), so that a reported input replays to the same selection
+    _random.seed(case.get('rseed', 0))
     try:
         body = b.build(change_address=addr(case['change']) if case.get('change') else None,
                        merge_change=bool(case.get('merge', False)))
